@@ -38,6 +38,9 @@ CLAIMED = {
     "C10": ("exploration",
             "Seeded programs of definitions over 5 names in every registration order, dependency graphs (acyclic, cyclic, self-loops) realised by generated factories that resolve their edges by Get or by tag-driven InjectTo (required / optional), with transient failures and nil results on chosen invocations, followed by 1-20 requests (Get, InjectTo into generated structs, Keys, late definitions); a reference model of the statement predicts every outcome, every instance identity (singleton, explicit beats default) and every factory invocation count; a depth guard turns runaway recursion into a reported event.",
             "Sampling of programs. Single task: the provider is single-threaded by contract; the fault dimension is the factory failure plan."),
+    "C11": ("exploration",
+            "Seeded scope trees (1-6 scopes, depth <= 3, shared and isolated children, tasks, listeners that fail on one close-protocol event) and 2-5 actor scripts (done-task, append-error, kill, stop, exactly one Close per scope) under the seeded scheduler; recording listeners on all eight close-protocol events; oracle over the event log: before-close, exactly one triple, after-close, each once and in order and inside the Close call; the triple starts after every DoneTask and after every child's after-close; rollback / commit by the errors present (racing errors accepted either way); Close returns an error iff the context holds one; shared failure reaches the parent, isolated failure does not, an ended parent stops isolated children by quiescence; a second Close is refused loudly without repeating events.",
+            "Sampling. The generated programs respect the documented contract (no mutating call on a scope object after its Close was invoked), enforced by a harness gate."),
     "C12": ("exploration",
             "Seeded search over schedules of 2-6 actors signalling one scope (plain, shared-context child, isolated child) with AppendError/Kill/Stop/IsDone/Err/Errors, and of child creation+close racing with the end of the parent; oracle: no panic or fatal error, every appended error retained and reported by Err/Wait/Close, done exactly once, isolation of isolated children.",
             "Sampling. Data races on plain fields (the unsynchronised read of the error slice) are outside what serialised execution can observe."),
